@@ -410,6 +410,8 @@ def wire_harness(prop, tier, seed, cov, log):
             runs.setdefault(sc, [0, 0])
             runs[sc][0] += len(lines); runs[sc][1] += sum(1 for l in lines if l.endswith(' ok'))
             bad = [l for l in lines if ' VIOLATION ' in l]
+            if scope:
+                continue        # the scenario's own verdicts (requests completing, server at rest) are C09's
             if bad:
                 # a wedged handler leaves process-wide gauges behind: only the first violation of a process counts
                 l = bad[0]
@@ -425,6 +427,20 @@ def wire_harness(prop, tier, seed, cov, log):
 
 # ------------------------------------------------------------------ C09: real threads under the race detector
 
+RACE_SCOPE = {
+    'C02': r'models\.\(\*Session\)\.(Broadcast|BroadcastTo|AddParticipant|RemoveParticipant|GetParticipants)',
+    'C03': r'models\.\(\*SessionStore\)',
+    'C05': r'models\.\(\*SequentialIDGenerator\)|models\.\(\*Entity\)\.',
+    'C07': r'models\.\(\*SessionStore\)|models\.\(\*Session\)\.(HandleFrame|StartDispatchFrames|Close)',
+    'C10': r'models\.\(\*SequentialIDGenerator\)|NewParticipantID|NewEntityID|NewAssetInstanceID|\)\.AddType',
+    'C11': r'models\.\(\*Session\)\.(HandleFrame|StartDispatchFrames)|models\.\(\*Entity\)\.(SetPose|Pose)',
+    'C12': r'models\.\(\*EntityComponentStore\)\.(Add|Update|Delete|DeleteByEntityID|List|ListAll|AddType|GetTypeName|GetTypeID)',
+    'C13': r'models\.\(\*EntityComponentStore\)\.(Notify|Subscribe|Unsubscribe|UnsubscribeByParticipant)',
+    'C16': r'modules/(vikja|odal)\.\(\*State\)',
+    'C20': r'modules/dagaz\.',
+}
+
+
 def race_harness(prop, tier, seed, cov, log):
     """C09: 4-16 well-behaved clients work concurrently in shared sessions of the real server (all modules, production
     decorators, real sockets), built with -race: no race report may involve a hagall package, every request must
@@ -433,11 +449,25 @@ def race_harness(prop, tier, seed, cov, log):
     n = 3 if tier == 'quick' else 48
     per = 1 if tier == 'quick' else 4
     jobs = [(seed * 1000 + k, min(per, n - k)) for k in range(0, n, per)]
+    import hashlib
+    hb = hashlib.sha1()
+    with open(f'{L.BIN}/wire-race', 'rb') as fh:
+        for blk in iter(lambda: fh.read(1 << 20), b''): hb.update(blk)
+    binsig = hb.hexdigest()
+    os.makedirs(f'{L.CACHE}/race', exist_ok=True)
+    # which racing accesses belong to the property: C09 owns them all, the others the state they speak about
+    scope = RACE_SCOPE.get(prop)
     def run(job):
         sd, cnt = job
+        # the runs are the same for every property that looks at them: kept, keyed by the executable and the arguments
+        cf_ = f'{L.CACHE}/race/{binsig[:20]}-{sd}-{cnt}.json'
+        if os.path.exists(cf_):
+            c = json.load(open(cf_))
+            return job, c['rc'], c['out'], c['err']
         try:
             r = subprocess.run([f'{L.BIN}/wire-race', '-scenario', 'concurrent', '-seed', str(sd), '-n', str(cnt)], capture_output=True,
                                text=True, env=dict(L.GOENV, GORACE='halt_on_error=0'), timeout=120 + 60 * cnt)
+            json.dump({'rc': r.returncode, 'out': r.stdout, 'err': r.stderr}, open(cf_ + '.tmp', 'w')); os.replace(cf_ + '.tmp', cf_)
             return job, r.returncode, r.stdout, r.stderr
         except subprocess.TimeoutExpired:
             return job, -9, '', 'timeout'
@@ -458,6 +488,7 @@ def race_harness(prop, tier, seed, cov, log):
             runs += len(lines); ok += sum(1 for l in lines if l.endswith(' ok'))
             for b in err.split('=================='):
                 if 'WARNING: DATA RACE' in b and 'aukilabs/hagall' in b:
+                    if scope and not re.search(scope, b): continue
                     races += 1
                     frames = re.findall(r'^\s+(github\.com/aukilabs/hagall[^\s]*)\(\)', b, re.M)
                     cause = 'data-race'
